@@ -12,10 +12,10 @@
    + a3 x^3)), which covers every real cubic and both polynomial types
    ([c05_simpson_exact_simple], [c05_exact_inter]).  RInt is Coquelicot's
    Riemann integral. *)
-From Coq Require Import ZArith NArith List Reals Lia Floats.
+From Coq Require Import ZArith NArith List Reals Lia Lra Floats.
 From Coquelicot Require Import Coquelicot.
 From SV Require Import Base.Num Base.Outcome Model.Poly Model.Quad
-  Proofs.Quad Proofs.QuadSimpson Proofs.QuadRomberg Proofs.QuadRInt.
+  Proofs.Quad Proofs.QuadSimpson Proofs.QuadRomberg Proofs.QuadRInt Proofs.QuadError.
 Import ListNotations.
 Local Open Scope R_scope.
 
@@ -168,21 +168,46 @@ Check c05_simpson_total : forall (T : Type) (NT : Num T) (f : T -> res T),
   forall (a b : T) (n : N), no_panic (definite_integral f a b n).
 Print Assumptions c05_simpson_total.
 
-(* ---- the error clause.  FULL STATEMENT (not proved; checked by the oracle of
-   tools/props/c05.py for degree 4..8):
+(* ---- the error clause, for EVERY four times differentiable integrand (f1..f4 its
+   derivatives, M any bound of |f4| on the interval), every interval (reversed and
+   empty included) and every n >= 2: even, odd (3/8 panel spliced in) and 3.  This
+   covers every polynomial degree, 5..8 in particular.  Proof: Proofs/QuadError.v
+   (auxiliary-function argument per panel, mean value theorem, composite sum). ------ *)
+Theorem c05_simpson_error : forall (fm : R -> res R) (f f1 f2 f3 f4 : R -> R),
+  (forall x, fm x = Ok (f x)) ->
+  (forall x, is_derive f x (f1 x)) -> (forall x, is_derive f1 x (f2 x)) ->
+  (forall x, is_derive f2 x (f3 x)) -> (forall x, is_derive f3 x (f4 x)) ->
+  forall (a b : R) (n : N) (M : R), (2 <= n)%N ->
+  (forall x, Rmin a b <= x <= Rmax a b -> Rabs (f4 x) <= M) ->
+  exists v, definite_integral fm a b n = Ok v /\
+    Rabs (v - RInt f a b) <= Rabs (b - a) * ((b - a) / IZR (Z.of_N n)) ^ 4 * M / 80.
+Proof. exact Proofs.QuadError.c05_simpson_error. Qed.
+Check c05_simpson_error : forall (fm : R -> res R) (f f1 f2 f3 f4 : R -> R),
+  (forall x, fm x = Ok (f x)) ->
+  (forall x, is_derive f x (f1 x)) -> (forall x, is_derive f1 x (f2 x)) ->
+  (forall x, is_derive f2 x (f3 x)) -> (forall x, is_derive f3 x (f4 x)) ->
+  forall (a b : R) (n : N) (M : R), (2 <= n)%N ->
+  (forall x, Rmin a b <= x <= Rmax a b -> Rabs (f4 x) <= M) ->
+  exists v, definite_integral fm a b n = Ok v /\
+    Rabs (v - RInt f a b) <= Rabs (b - a) * ((b - a) / IZR (Z.of_N n)) ^ 4 * M / 80.
+Print Assumptions c05_simpson_error.
 
-     forall (p : spoly R) (a b : R) (n : N) (M4 : R), (2 <= n)%N ->
-       (forall x, Rmin a b <= x <= Rmax a b ->
-                  Rabs (Derive_n (eval_simple p) 4 x) <= M4) ->
-       exists v, definite_integral (s_eval_univariate p) a b n = Ok v /\
-         Rabs (v - RInt (eval_simple p) a b)
-           <= Rabs (b - a) * ((b - a) / IZR (Z.of_N n)) ^ 4 * M4 / 80.
+(* every SimplePolynomial, whatever its number of coefficients: the fourth derivative is
+   the model's own simple_derivative applied four times ([sderiv4]) *)
+Theorem c05_simpson_error_simple : forall (p : spoly R) (a b : R) (n : N) (M : R), (2 <= n)%N ->
+  (forall x, Rmin a b <= x <= Rmax a b -> Rabs (eval_simple (sderiv4 p) x) <= M) ->
+  exists v, definite_integral (s_eval_univariate p) a b n = Ok v /\
+    Rabs (v - RInt (eval_simple p) a b) <= Rabs (b - a) * ((b - a) / IZR (Z.of_N n)) ^ 4 * M / 80.
+Proof. exact Proofs.QuadError.c05_simpson_error_simple. Qed.
+Check c05_simpson_error_simple : forall (p : spoly R) (a b : R) (n : N) (M : R), (2 <= n)%N ->
+  (forall x, Rmin a b <= x <= Rmax a b -> Rabs (eval_simple (sderiv4 p) x) <= M) ->
+  exists v, definite_integral (s_eval_univariate p) a b n = Ok v /\
+    Rabs (v - RInt (eval_simple p) a b) <= Rabs (b - a) * ((b - a) / IZR (Z.of_N n)) ^ 4 * M / 80.
+Print Assumptions c05_simpson_error_simple.
 
-   What is proved is the degree-4 case (f'''' = 24 a4 is constant), for every n >= 2
-   including the odd counts where the 3/8 panel is spliced in, together with the
-   fact that for n = 3 the bound is attained: the constant 1/80 is the best possible.
-   Missing for degree 5..8: a per-panel remainder argument (Peano kernel or
-   Taylor-Lagrange with a mean-value step) instead of the closed form used here. *)
+(* the degree-4 instance in closed form (kept from the first round; now a special case of
+   [c05_simpson_error]) and the fact that for n = 3 the bound is attained: the constant
+   1/80 is the best possible *)
 Theorem c05_simpson_error_partial : forall (f : R -> res R) (a0 a1 a2 a3 a4 : R),
   (forall x, f x = Ok (a0 + a1 * x + a2 * x ^ 2 + a3 * x ^ 3 + a4 * x ^ 4)) ->
   forall (a b : R) (n : N), (2 <= n)%N ->
@@ -212,6 +237,18 @@ Check c05_simpson_error_tight_n3 : forall (f : R -> res R) (a0 a1 a2 a3 a4 : R),
     Rabs (v - RInt (fun x => a0 + a1 * x + a2 * x ^ 2 + a3 * x ^ 3 + a4 * x ^ 4) a b) =
     Rabs (b - a) * ((b - a) / 3) ^ 4 * Rabs (24 * a4) / 80.
 Print Assumptions c05_simpson_error_tight_n3.
+
+(* the hypotheses of [c05_simpson_error_simple] are met by x^5 on [0,1] with M = 120 *)
+Example c05_error_nonvacuous :
+  let p : spoly R := {| s_coefs := [0; 0; 0; 0; 0; 1]; s_var := Some 120%N |} in
+  forall x, Rmin 0 1 <= x <= Rmax 0 1 -> Rabs (eval_simple (sderiv4 p) x) <= 120.
+Proof.
+  cbv zeta. intros x Hx. rewrite Rmin_left, Rmax_right in Hx by lra.
+  rewrite Proofs.QuadError.eval_simple_psum.
+  unfold sderiv4, simple_derivative. cbn [s_coefs deriv_coefs_from psum].
+  unfold nofnat. cbn [nmul nofZ RNum Z.of_nat Pos.of_succ_nat Pos.succ].
+  apply Rabs_le. lra.
+Qed.
 
 (* ---- non-vacuity ------------------------------------------------------------------- *)
 (* the hypothesis "f is a cubic" is met by both polynomial types, and the hypotheses
